@@ -37,7 +37,8 @@ def gen(r, tier):
         t += 0.0 if (burst and r.chance(0.7)) else r.choice([0.0, 0.01, 0.1, 0.5, 2.0])
         peer = 0 if r.chance(0.6) else r.randrange(npeers)
         ops.append({"op": "req", "t": round(t, 4), "peer": peer, "con": r.chance(0.75),
-                    "react": r.weighted([(5, "ack"), (2, "ack_sep"), (2, "piggy"), (2, "rst"), (2, "silent")]),
+                    "react": r.weighted([(5, "ack"), (2, "ack_sep"), (2, "piggy"), (2, "rst"), (2, "silent"),
+                                         (1, "sep_rst"), (1, "sep_ack"), (1, "sep_only")]),
                     "delay": r.choice([0.005, 0.005, 0.05, 0.3, 1.0, 2.5]),
                     "mr": r.choice([0, 1, 2, 4]), "ato": r.choice([0.2, 0.5, 2.0])})
     if r.chance(0.4):
@@ -114,6 +115,16 @@ class Peer(ScriptedEndpoint):
             if react in ("piggy", "ack_sep"):
                 self.send(src, msg={"type": rc.NON, "code": rc.CONTENT, "mid": self.next_mid(), "token": msg["token"],
                                     "options": [], "payload": b"n%d" % tag}, fate=["deliver", delay])
+            return
+        if react in ("sep_rst", "sep_ack", "sep_only"):
+            # the response overtakes the acknowledgement (or the ACK was lost): the request is complete while its
+            # exchange is still open; the exchange then ends by RST / ACK / time-out like any other
+            self.send(src, msg={"type": rc.NON, "code": rc.CONTENT, "mid": self.next_mid(), "token": msg["token"],
+                                "options": [], "payload": b"s%d" % tag}, fate=["deliver", delay])
+            if react != "sep_only":
+                self.send(src, msg={"type": rc.RST if react == "sep_rst" else rc.ACK, "code": 0, "mid": msg["mid"],
+                                    "token": b"", "options": [], "payload": b""}, fate=["deliver", delay + 0.3])
+            self.sim.probe("response_before_exchange_end")
             return
         if react == "silent":
             return
